@@ -24,4 +24,7 @@ Print Assumptions C01_radial_volume.
 
 Example C01_nonvacuous : 0 <= 0 /\ 0 < (1#2) /\ 0 + (1#2) / 2 < (9#4) /\ (9#4) <= 0 + inject_Z (Z.of_nat 8) * (1#2) /\
   locate_radial 0 (1#2) (radial_mask 0 (1#2) (9#4) 8) = Some (0 + inject_Z 4 * (1#2)).
-Proof. repeat split; vm_compute; reflexivity. Qed.
+Proof.
+  split; [apply Qle_refl|]. split; [reflexivity|]. split; [reflexivity|].
+  split; [vm_compute; discriminate|vm_compute; reflexivity].
+Qed.
